@@ -43,6 +43,9 @@ type poolCfg struct {
 	OnResult func(job int, line []byte)
 	// OnDeath gets the job in flight; it may return a replacement job (the rest of the work) or nil.
 	OnDeath func(job int, jobRaw []byte, d death) []byte
+	// Stop, if set, is asked before each job is started; true = do not start it (Skipped is called)
+	Stop    func() bool
+	Skipped func(job int)
 }
 
 type tailBuf struct {
@@ -198,6 +201,17 @@ func runPoolDeadline(e *Env, pc *poolCfg, jobs [][]byte, deadline time.Duration,
 					skipped(it.idx)
 					mu.Unlock()
 					continue
+				}
+				if pc.Stop != nil {
+					mu.Lock()
+					stop := pc.Stop()
+					if stop && pc.Skipped != nil {
+						pc.Skipped(it.idx)
+					}
+					mu.Unlock()
+					if stop {
+						continue
+					}
 				}
 				cur := it.raw
 				for cur != nil {
